@@ -1153,11 +1153,17 @@ Proof.
   cbn [option_map res_map opt_agree]. apply tree_eqb_refl.
 Qed.
 
-Theorem prop_rt_dict_model sp t : prop_rt_path false sp t (rt_dict t sp) = true.
+Theorem prop_rt_dict_multi sp t : sep_free sp t = true -> prop_rt_path false sp t (rt_dict t sp) = true.
 Proof.
-  unfold prop_rt_path. destruct (valid_tree t) eqn:Hv; [|reflexivity].
-  destruct (sep_free sp t) eqn:Hs; [|reflexivity]. cbn [andb negb orb].
-  rewrite rt_dict_ok by assumption. apply same_tree_norm. exact Hv.
+  intros Hs. unfold prop_rt_path. destruct (valid_tree t) eqn:Hv; [|reflexivity].
+  rewrite rt_dict_ok by assumption. rewrite same_tree_norm by exact Hv.
+  destruct (true && sep_safe sp t && (negb false || frame_safe t)); reflexivity.
+Qed.
+
+Theorem prop_rt_dict_model c t : prop_rt_path false [c] t (rt_dict t [c]) = true.
+Proof.
+  destruct (sep_safe [c] t) eqn:Hs; [apply prop_rt_dict_multi, sep_safe_free; exact Hs|].
+  unfold prop_rt_path. rewrite Hs, andb_false_r. reflexivity.
 Qed.
 
 Theorem prop_rt_nested_model t : prop_rt_nested t (rt_nested t) = true.
@@ -1419,9 +1425,9 @@ Section FrameImport.
       destruct (Hc pa Ha) as [Na Ca]. destruct (Hc pb Hb) as [Nb Cb]. apply (join_inj sp); assumption. }
     rewrite Hd. unfold xs at 1. cbn [map fst snd join]. cbv zeta.
     destruct (Hc ([r], x0) (or_introl eq_refl)) as [_ Hr]. cbn [fst] in Hr. inversion Hr as [|? ? Hcr _]; subst.
-    assert (Hsp : split r sp = [r]).
-    { apply (split_join sp r []). constructor; [destruct Hcr as [_ H]; exact H|constructor]. }
-    rewrite Hsp. cbn [hd].
+    assert (Hspl : split r sp = [r]).
+    { apply (split_join_any sp [r]); [exact Hsp|discriminate|]. constructor; [destruct Hcr as [_ H]; exact H|constructor]. }
+    rewrite Hspl. cbn [hd].
     assert (Hfil : filter (fun pa : str * record => str_eqb (fst pa) r)
                      (map (fun pr : list str * tree => (join sp (fst pr), dict_del s_path (F pr))) xs)
                    = (r, dict_del s_path (F ([r], x0)))
@@ -1478,7 +1484,6 @@ Proof. destruct t as [g n a ks]. cbn [rel_nodes tname]. eexists. reflexivity. Qe
 
 Section FrameRT.
   Variable sp : str.
-  Hypothesis Hsp : sp <> [].
 
   Definition frame_full (pr : list str * tree) : record :=
     (s_path, VStr (path_name sp (fst pr))) :: (s_name, VStr (tname (snd pr))) :: describe (snd pr).
@@ -1595,14 +1600,14 @@ Section FrameRT.
     assert (Hcols : frame_columns rows <> []).
     { fold cols. destruct cols_head as [cols' E]. rewrite E. discriminate. }
     rewrite frame_of_fill by exact Hcols. fold cols. unfold rows. rewrite map_map.
-    pose proof (names_clean_of sp t Hv Hsafe) as Hc.
+    pose proof (names_clean_of sp t Hv Hsafe) as Hc. pose proof (sep_free_nonempty sp t Hsafe) as Hsp.
     pose proof (rel_nodes_clean sp t Hc) as Hcl. rewrite Forall_forall in Hcl.
     pose proof (rel_nodes_nonempty t) as Hne. rewrite Forall_forall in Hne.
     destruct (rel_nodes_shape t) as [xs' Exs].
-    rewrite (dataframe_to_tree_gen sp (fun pr => fill cols (frame_full pr)) frame_attrs (tname t) t xs' (rel_nodes t) Exs).
+    rewrite (dataframe_to_tree_gen sp Hsp (fun pr => fill cols (frame_full pr)) frame_attrs (tname t) t xs' (rel_nodes t) Exs).
     - rewrite <- (map_map (fun pr => (fst pr, frame_attrs (snd pr))) (fun z => (join sp (fst z), snd z))).
       rewrite rel_nodes_recs, map_map. cbn [fst snd].
-      rewrite (add_paths_join_ok sp (tname t)) by (try reflexivity; apply rel_recs_clean; exact Hc).
+      rewrite (add_paths_join_ok sp (tname t) _ Hsp) by (try reflexivity; apply rel_recs_clean; exact Hc).
       cbn [res_map]. f_equal.
       rewrite (rebuild_from_records frame_attrs t Hv (fun x _ => frame_attrs_keys_nodup x)).
       + apply sort_rebuild_frame. intros y Hy. exact Hy.
@@ -1614,14 +1619,20 @@ Section FrameRT.
   Qed.
 End FrameRT.
 
-Theorem prop_rt_frame_model sp t : prop_rt_path true sp t (rt_frame t sp) = true.
+Theorem prop_rt_frame_multi sp t : sep_free sp t = true -> prop_rt_path true sp t (rt_frame t sp) = true.
 Proof.
-  unfold prop_rt_path. destruct (valid_tree t) eqn:Hv; [|reflexivity].
-  destruct (sep_free sp t) eqn:Hs; [|reflexivity]. cbn [andb negb orb].
-  destruct (frame_safe t) eqn:Hf; [|reflexivity].
+  intros Hs. unfold prop_rt_path. destruct (valid_tree t) eqn:Hv; [|reflexivity].
+  destruct (frame_safe t) eqn:Hf; [|rewrite andb_false_r; reflexivity].
   pose proof (rt_frame_ok sp t Hv Hs Hf) as H. unfold same_tree.
   destruct (rt_frame t sp) as [t'|e]; cbn [res_map] in H; [|discriminate].
-  injection H as H. rewrite H. apply tree_eqb_refl.
+  injection H as H. rewrite H, tree_eqb_refl.
+  destruct (true && sep_safe sp t && (negb true || true)); reflexivity.
+Qed.
+
+Theorem prop_rt_frame_model c t : prop_rt_path true [c] t (rt_frame t [c]) = true.
+Proof.
+  destruct (sep_safe [c] t) eqn:Hs; [apply prop_rt_frame_multi, sep_safe_free; exact Hs|].
+  unfold prop_rt_path. rewrite Hs, andb_false_r. reflexivity.
 Qed.
 
 (* ---------------------------------------------------------------------------------------------- *)
@@ -1685,6 +1696,7 @@ Proof.
   pose proof (rel_nodes_nonempty t) as Hn. rewrite Forall_forall in Hn. subst x y.
   apply (path_name_inj sp) in E.
   - apply app_inv_head in E. exact E.
+  - exact (sep_free_nonempty sp root Hs).
   - intros E0. apply app_eq_nil in E0 as [_ E0]. apply (Hn px Hx). exact E0.
   - intros E0. apply app_eq_nil in E0 as [_ E0]. apply (Hn py Hy). exact E0.
   - apply Forall_app. split; [exact Hanc|apply Hcl; exact Hx].
@@ -1701,4 +1713,39 @@ Proof.
   intros Hv Hs Hp. apply tree_to_dict_map.
   - unfold nodes_from. rewrite Hp. reflexivity.
   - apply NoDup_map_filter. apply paths_nodup_from; assumption.
+Qed.
+
+(* ---------------------------------------------------------------------------------------------- *)
+(* the one-character special cases, with the substring guard sep_safe *)
+
+Lemma paths_nodup_1 c t : valid_tree t = true -> sep_safe [c] t = true ->
+  NoDup (map (c_path [c]) (nodes_under [] t)).
+Proof. intros Hv Hs. apply paths_nodup; [exact Hv|apply sep_safe_free; exact Hs]. Qed.
+
+Theorem tree_to_dict_records_1 c root p o t :
+  valid_tree root = true -> sep_safe [c] root = true -> subtree_at root p = Some t ->
+  tree_to_dict root [c] p o
+  = Ret (map (fun x => (c_path [c] x, dict_record o x))
+             (filter (selected o) (nodes_under (anc_names root p) t))).
+Proof. intros Hv Hs Hp. apply tree_to_dict_records; [exact Hv|apply sep_safe_free; exact Hs|exact Hp]. Qed.
+
+Theorem rt_dict_ok_1 c t : valid_tree t = true -> sep_safe [c] t = true ->
+  rt_dict t [c] = Ret (norm_tree false t).
+Proof. intros Hv Hs. apply rt_dict_ok; [exact Hv|apply sep_safe_free; exact Hs]. Qed.
+
+Theorem rt_frame_ok_1 c t : valid_tree t = true -> sep_safe [c] t = true -> frame_safe t = true ->
+  res_map sort_tree (rt_frame t [c]) = Ret (norm_tree true t).
+Proof. intros Hv Hs Hf. apply rt_frame_ok; [exact Hv|apply sep_safe_free; exact Hs|exact Hf]. Qed.
+
+(* the guard in its readable form *)
+Lemma sep_free_spec sp t : sep_free sp t = true <->
+  sp <> [] /\ forall n, In n (pre t) -> sfree sp (tname n).
+Proof.
+  unfold sep_free. split.
+  - intros H. apply andb_true_iff in H as [H1 H2]. split; [intros ->; discriminate|].
+    rewrite forallb_forall in H2. intros n Hn ch Hch Hin. specialize (H2 n Hn).
+    rewrite forallb_forall in H2. specialize (H2 ch Hch). apply negb_true_iff, memN_false in H2. contradiction.
+  - intros [H1 H2]. apply andb_true_iff. split; [destruct sp; [contradiction|reflexivity]|].
+    apply forallb_forall. intros n Hn. apply forallb_forall. intros ch Hch.
+    apply negb_true_iff, memN_false. apply (H2 n Hn ch Hch).
 Qed.
